@@ -254,16 +254,29 @@ fn check(ctx: &Ctx) -> i32 {
     // group sizes: n rules that all land in one bucket (their only indexable token is `adv`) and
     // are all fusable, n = 1..=N: whatever the optimiser does with large groups (chunking, RegexSet
     // limits), every rule must keep matching its own URL and nothing else
-    let n_max: u64 = ctx.tier.pick(150, 400);
-    ctx.bound("group_size_max", n_max);
-    ctx.par_range("group sizes", n_max, 1, |i, l| {
-        let n = i as usize + 1;
+    // plain family: every n up to n_max; regex family (fused into a RegexSet, the expensive path):
+    // every n up to 40, then the sizes around powers of two and a few large ones
+    let n_max: usize = ctx.tier.pick(130, 400);
+    let mut sizes: Vec<(usize, bool)> = (1..=n_max).map(|n| (n, false)).collect();
+    sizes.extend((1..=40).map(|n| (n, true)));
+    let around: Vec<usize> = ctx.tier.pick(vec![63, 64, 65, 66, 127, 128, 129, 130], vec![63, 64, 65, 66, 67, 100, 127, 128, 129, 130, 131, 191, 192, 193, 255, 256, 257, 258, 512, 768, 1024, 1536, 2048, 3000]);
+    sizes.extend(around.iter().map(|n| (*n, true)));
+    if ctx.tier == vh::Tier::Thorough {
+        sizes.extend([512usize, 1024, 2048, 3000].iter().map(|n| (*n, false)));
+    }
+    ctx.bound("group_size_max_every_n", n_max);
+    ctx.bound("group_sizes_regex_family_beyond_40", json!(around));
+    ctx.par_range("group sizes", sizes.len() as u64, 1, |i, l| {
+        let (n, regex_family) = sizes[i as usize];
         let res = ResourceStorage::from_resources(vh::net::std_resources());
-        let rules: Vec<String> = (0..n).map(|k| format!("/adv/x{:03}", k)).collect();
+        // plain family: `/adv/x0001`; regex family: `/adv/*x0001^` (compiled, fused into a RegexSet)
+        let rules: Vec<String> = (0..n).map(|k| if regex_family { format!("/adv/*x{:04}^", k) } else { format!("/adv/x{:04}", k) }).collect();
         let refs: Vec<&str> = rules.iter().map(|s| s.as_str()).collect();
         let mut reqs: Vec<Req> = vec![];
-        for k in 0..n + 1 {
-            let url = format!("https://x.com/adv/x{:03}", k);
+        // every URL for small groups; for large ones the first, the last, the chunk borders and one beyond
+        let ks: Vec<usize> = if n <= n_max { (0..n + 1).collect() } else { let mut v: Vec<usize> = (0..n + 1).step_by(61).collect(); v.extend([n - 1, n, 63, 64, 65, 127, 128, 129, 255, 256, 257]); v };
+        for k in ks {
+            let url = format!("https://x.com/adv/{}x{:04}/", if regex_family { "p/" } else { "" }, k);
             if let Ok(req) = adblock::request::Request::new(&url, "https://y.com/", "script") {
                 reqs.push(Req { req, url, source: "https://y.com/".into(), ty: "script" });
             }
